@@ -2,6 +2,9 @@ import Amgcl.Proofs.RelaxScaleCheb
 import Amgcl.Proofs.RelaxScaleIlup
 import Amgcl.Proofs.RelaxScaleIluk
 import Amgcl.Properties.C06
+import Amgcl.Proofs.EnergySymIlu
+import Amgcl.Proofs.EnergyExample
+import Mathlib.Tactic.IntervalCases
 /-!
 # C02 (scaling clause for the factorisation / polynomial smoothers) — `N(cA) = c⁻¹ N(A)` for ILU(0), ILUP, Chebyshev
 
@@ -226,5 +229,118 @@ theorem cheb_sweep_scale (prm : ChebParams K) (c : K) (A : CRS K)
 example (f x t : Vec ℚ) := cheb_sweep_scale (K := ℚ) ⟨2, 1, 1/30, false⟩ 4 C06.exA (Or.inl ⟨rfl, by norm_num⟩) f x t
 
 end cheb
+
+/-! ## Symmetry: ILU(0) of a symmetric matrix gives a symmetric sweep operator, hence a symmetric cycle
+
+Property text: "for the symmetric smoothers (…, ILU(0)/ILU(k)/ILUP, Chebyshev) B is itself symmetric".  `C02b.B_symmetric`
+asks `Hier.OK` (SPD level matrices AND contraction of every sweep — not available for ILU / Chebyshev);
+`cycle_symmetric_struct` is the same conclusion from the structural hypotheses only. -/
+section sym
+open Matrix Amgcl.Energy Amgcl.Energy.Bridge
+variable {K : Type} [Field K] [DecidableEq K]
+
+/-- **`ilu0_symmetric`.**  `A` well formed, square, sorted rows, SYMMETRIC PATTERN and symmetric values (`SymCRS`), ILU(0)
+constructor successful.  In the storage convention of the model (`L` strictly lower with unit diagonal implied, `U`
+strictly upper, `D` the INVERTED pivots): `L_ij · (1 / D_j) = U_ji` for `j < i`, i.e. `U = D⁻¹ Lᵀ`; so
+`M = (I+L)(D⁻¹+U) = (I+L) D⁻¹ (I+L)ᵀ` is symmetric, and the matrix `N = ω M⁻¹` of the sweep
+`x ← x + ω·solve(f − A x)` (`iluN`, with `SweepIs` for the model pre- and post-sweep) is symmetric: `post = pre†`. -/
+theorem ilu0_symmetric (ω : K) (A : CRS K) (hA : A.WF) (hsq : A.ncols = A.nrows) (hs : A.sortedb = true)
+    (hsym : SymCRS A) (F : IluFactors K) (hF : (ilu0 ω).setup A = .ok F) :
+    (∀ j i, j < i → i < A.nrows → F.L.get i j * (1 / F.D.getD j 0) = F.U.get j i) ∧
+    (iluM F A.nrows)ᵀ = iluM F A.nrows ∧
+    (iluN ω F A.nrows)ᵀ = iluN ω F A.nrows ∧
+    SweepIs ((ilu0 ω).applyPre F A) A.nrows (matOf A A.nrows A.nrows) (iluN ω F A.nrows) ∧
+    SweepIs ((ilu0 ω).applyPost F A) A.nrows (matOf A A.nrows A.nrows) (iluN ω F A.nrows) := by
+  have hLU := ilu0_LU_symm A hA hsq hs hsym F hF
+  obtain ⟨hLz, hUz⟩ := ilu0_tri_zero A hA hsq hs F hF
+  obtain ⟨h1, h2, h3, h4, h5, h6, h7, h8, _, h10⟩ := C06.ilu0_factors_wf ω A hA hsq hs F hF
+  have hM := iluM_transpose F A.nrows hLU hLz hUz h10
+  have hcl : ColsLt A A.nrows := fun i cv hcv => by rw [← hsq]; exact K2.row_col_lt hA i hcv
+  refine ⟨hLU, hM, ?_, sweepIs_ilu ω F A rfl hcl, sweepIs_ilu ω F A rfl hcl⟩
+  exact iluN_transpose ω F A.nrows hM
+    (fun b hb => iluM_mulVec_solve F A.nrows h1 h2 h3 h4 h5 h6 h7 h8 h10 b hb)
+
+/-- the 1D Laplacian-like SPD matrix `tridiag(-1, 4, -1)` of order 3 and its ILU(0) factors -/
+def exS : CRS ℚ := ⟨3, #[[(0, 4), (1, -1)], [(0, -1), (1, 4), (2, -1)], [(1, -1), (2, 4)]]⟩
+def exSF : IluFactors ℚ := ⟨⟨3, #[[], [(0, -1/4)], [(1, -4/15)]]⟩, ⟨3, #[[(1, -1)], [(2, -1)], []]⟩, #[1/4, 4/15, 15/56]⟩
+local instance exDecEqCRS : DecidableEq (CRS ℚ) := fun a b =>
+  decidable_of_iff (a.ncols = b.ncols ∧ a.rows = b.rows) (by cases a; cases b; simp)
+local instance exDecEqIlu : DecidableEq (IluFactors ℚ) := fun a b =>
+  decidable_of_iff (a.L = b.L ∧ a.U = b.U ∧ a.D = b.D) (by cases a; cases b; simp)
+theorem exS_ilu0 (ω : ℚ) : (ilu0 ω).setup exS = .ok exSF := by
+  show ilu0Factor exS = .ok exSF
+  decide +kernel
+theorem exS_sym : SymCRS exS := by
+  constructor
+  · intro i j hi hj
+    have hi' : i < 3 := hi
+    have hj' : j < 3 := hj
+    interval_cases i <;> interval_cases j <;> decide
+  · intro i j hi hj
+    have hi' : i < 3 := hi
+    have hj' : j < 3 := hj
+    interval_cases i <;> interval_cases j <;> decide +kernel
+
+example : (iluN (3/4 : ℚ) exSF 3)ᵀ = iluN (3/4) exSF 3 :=
+  (ilu0_symmetric (3/4 : ℚ) exS (by decide) rfl (by decide) exS_sym exSF (exS_ilu0 _)).2.2.1
+
+/-- **`cycle_symmetric_struct`** — `C02b.B_symmetric` without `Hier.OK`: level matrices symmetric, `R = Pᵀ`
+(`Hier.SymStruct`), post-sweep matrix = transpose of the pre-sweep matrix on every level (`Hier.Sym`), `npre = npost` ⟹
+`B = Bᵀ` and `applyB = applyBᵀ` (any `pre_cycles`, V- and W-cycles, any number of levels, direct or smoothed coarsest
+level).  No positive definiteness, no contraction: applies to every symmetric smoother. -/
+theorem cycle_symmetric_struct {𝕜 : Type} [Field 𝕜] [LinearOrder 𝕜] [IsStrictOrderedRing 𝕜] (p : CycPrm)
+    (hnu : p.npre = p.npost) (k : ℕ) {n : ℕ} (h : Hier 𝕜 n) (hA : h.Aᵀ = h.A) (hst : h.SymStruct) (hsym : h.Sym) :
+    (h.B p)ᵀ = h.B p ∧ (h.applyB p k)ᵀ = h.applyB p k :=
+  ⟨Hier.B_transpose_struct p hnu h hst hsym, Hier.applyB_transpose_struct p hnu k h hA hst hsym⟩
+
+/-- level `(A, N₁, N₂)` is smoothed by ILU(0): `A` is denoted by a symmetric CRS matrix on which the constructor
+succeeds and both sweep matrices are the `iluN` of its factors -/
+def IluLevel (ω : K) {n : ℕ} (A N₁ N₂ : Matrix (Fin n) (Fin n) K) : Prop :=
+  ∃ (Ac : CRS K) (F : IluFactors K), Ac.WF ∧ Ac.ncols = Ac.nrows ∧ Ac.sortedb = true ∧ SymCRS Ac ∧
+    ∃ hn : Ac.nrows = n, (ilu0 ω).setup Ac = .ok F ∧ A = matOf Ac n n ∧ N₁ = iluN ω F n ∧ N₂ = iluN ω F n
+
+/-- every smoothed level of the hierarchy is an ILU(0) level -/
+def IluLevels (ω : K) : {n : ℕ} → Hier K n → Prop
+  | _, .direct _ => True
+  | _, .relax A N₁ N₂ => IluLevel ω A N₁ N₂
+  | _, .level A N₁ N₂ _ _ next => IluLevel ω A N₁ N₂ ∧ IluLevels ω next
+
+theorem IluLevel.sym {ω : K} {n : ℕ} {A N₁ N₂ : Matrix (Fin n) (Fin n) K} (h : IluLevel ω A N₁ N₂) : N₂ = N₁ᵀ := by
+  obtain ⟨Ac, F, hA, hsq, hs, hsym, hn, hF, -, h1, h2⟩ := h
+  subst hn
+  rw [h1, h2, (ilu0_symmetric ω Ac hA hsq hs hsym F hF).2.2.1]
+
+theorem IluLevels.sym {ω : K} : ∀ {n : ℕ} (h : Hier K n), IluLevels ω h → h.Sym
+  | _, .direct _, _ => trivial
+  | _, .relax _ _ _, hl => IluLevel.sym hl
+  | _, .level _ _ _ _ _ next, hl => ⟨IluLevel.sym hl.1, IluLevels.sym next hl.2⟩
+
+end sym
+
+section symcycle
+open Matrix Amgcl.Energy Amgcl.Energy.Bridge
+variable {K : Type} [Field K] [LinearOrder K] [IsStrictOrderedRing K]
+
+/-- **`ilu0_cycle_symmetric`.**  A hierarchy with `R = Pᵀ` on every level whose smoothed levels are ILU(0) levels of
+symmetric matrices (pre- and post-sweep both `x ← x + ω·solve(f − A x)` with the factors the model constructor returns):
+for `npre = npost` the cycle operator `B` and the `apply` operator are symmetric — for every damping `ω`, V- and
+W-cycles, any number of levels, any `pre_cycles`. -/
+theorem ilu0_cycle_symmetric (ω : K) (p : CycPrm) (hnu : p.npre = p.npost) (k : ℕ) {n : ℕ} (h : Hier K n)
+    (hA : h.Aᵀ = h.A) (hst : h.SymStruct) (hilu : IluLevels ω h) :
+    (h.B p)ᵀ = h.B p ∧ (h.applyB p k)ᵀ = h.applyB p k :=
+  cycle_symmetric_struct p hnu k h hA hst (IluLevels.sym h hilu)
+
+-- one smoothed level on `exS` (coarsest level smoothed, `npre = npost = 2`), damping 3/4
+example : ((Hier.relax (matOf exS 3 3) (iluN (3/4 : ℚ) exSF 3) (iluN (3/4) exSF 3)).B ⟨2, 2, 1⟩)ᵀ
+    = (Hier.relax (matOf exS 3 3) (iluN (3/4 : ℚ) exSF 3) (iluN (3/4) exSF 3)).B ⟨2, 2, 1⟩ := by
+  have hAs : (matOf exS 3 3)ᵀ = matOf exS 3 3 := by
+    ext i j; exact exS_sym.val j.val i.val j.isLt i.isLt
+  have hl : IluLevels (3/4 : ℚ) (Hier.relax (matOf exS 3 3) (iluN (3/4 : ℚ) exSF 3) (iluN (3/4) exSF 3)) :=
+    ⟨exS, exSF, by decide, rfl, by decide, exS_sym, rfl, exS_ilu0 _, rfl, rfl, rfl⟩
+  exact (ilu0_cycle_symmetric (3/4 : ℚ) ⟨2, 2, 1⟩ rfl 1
+    (Hier.relax (matOf exS 3 3) (iluN (3/4 : ℚ) exSF 3) (iluN (3/4) exSF 3)) (by simp only [Hier.A]; exact hAs)
+    (by simp only [Hier.SymStruct]; exact hAs) hl).1
+
+end symcycle
 
 end Amgcl.C02e
